@@ -74,6 +74,11 @@ class Cursor:
         self.rows = self.conn._run(norm(sql), tuple(params), self)
         return self
 
+    def executemany(self, sql, seq):
+        for params in seq:
+            self.execute(sql, params)
+        return self
+
     def fetchone(self):
         return self.rows[0] if self.rows else None
 
@@ -94,12 +99,16 @@ class Connection:
         self.metadata = list(db.metadata)
         self.next_id = db.next_id
         self.autocommit = isolation_level is None
+        self.fk = False          # sqlite enforces foreign keys only after PRAGMA foreign_keys=ON on this connection
 
     def cursor(self):
         return Cursor(self)
 
     def execute(self, sql, params=()):
         return Cursor(self).execute(sql, params)
+
+    def executemany(self, sql, seq):
+        return Cursor(self).executemany(sql, seq)
 
     def commit(self):
         self.db.names = list(self.names)
@@ -131,7 +140,17 @@ class Connection:
         db.log.append(sql)
         if db.fail_at is not None and i == db.fail_at:
             raise sqlite3.OperationalError("injected failure at statement %d" % i)
+        if sql == "PRAGMA foreign_keys=ON":
+            self.fk = True
+            return []
         if sql.startswith("PRAGMA") or sql == "VACUUM":
+            return []
+        if sql == "DELETE FROM pyro_names WHERE name=?":
+            hit = [r for r in self.names if eq(r[1], params[0])]
+            for r in hit:
+                if self.fk and [m for m in self.metadata if m[0] == r[0]]:
+                    raise sqlite3.IntegrityError("FOREIGN KEY constraint failed")
+            self.names = [r for r in self.names if r not in hit]
             return []
         if sql == "SELECT COUNT(*) FROM pyro_names" or sql == "SELECT count(*) FROM pyro_names":
             return [(len(self.names),)]
@@ -149,7 +168,7 @@ class Connection:
             self.metadata = [r for r in self.metadata if r[0] != params[0]]
             return []
         if sql == "DELETE FROM pyro_names WHERE id=?":
-            if [r for r in self.metadata if r[0] == params[0]]:
+            if self.fk and [r for r in self.metadata if r[0] == params[0]]:
                 raise sqlite3.IntegrityError("FOREIGN KEY constraint failed")
             self.names = [r for r in self.names if r[0] != params[0]]
             return []
@@ -157,7 +176,7 @@ class Connection:
             self.metadata = []
             return []
         if sql == "DELETE FROM pyro_names":
-            if self.metadata:
+            if self.fk and self.metadata:
                 raise sqlite3.IntegrityError("FOREIGN KEY constraint failed")
             self.names = []
             return []
@@ -178,7 +197,7 @@ class Connection:
             cur.lastrowid = new_id
             return []
         if sql == "INSERT INTO pyro_metadata(object, metadata) VALUES (?,?)":
-            if not [r for r in self.names if r[0] == params[0]]:
+            if self.fk and not [r for r in self.names if r[0] == params[0]]:
                 raise sqlite3.IntegrityError("FOREIGN KEY constraint failed")
             self.metadata.append((params[0], params[1]))
             return []
